@@ -82,6 +82,15 @@ func corpus(name string) (input string, chain []exchange) {
 	case "collection":
 		coll := `{"id":"https://%H0%%P%/outbox","type":"OrderedCollection","totalItems":40,"orderedItems":[` + items(40) + `]}`
 		return "https://%H0%%P%/outbox", []exchange{{0, "/outbox", "HTTP/1.1 200 OK\r\n" + ct + "\r\n" + coll}}
+	case "paged-collection":
+		// a collection read through its pages: a fault on a later page must show as an error item after what was read
+		root := `{"id":"https://%H0%%P%/outbox","type":"OrderedCollection","totalItems":6,"first":"https://%H0%%P%/outbox/page1"}`
+		page1 := `{"id":"https://%H0%%P%/outbox/page1","type":"OrderedCollectionPage","partOf":"https://%H0%%P%/outbox","orderedItems":[` + items(3) + `],"next":"https://%H0%%P%/outbox/page2"}`
+		page2 := `{"id":"https://%H0%%P%/outbox/page2","type":"OrderedCollectionPage","partOf":"https://%H0%%P%/outbox","orderedItems":[` + items(3) + `]}`
+		return "https://%H0%%P%/outbox", []exchange{
+			{0, "/outbox", "HTTP/1.1 200 OK\r\n" + ct + "\r\n" + root},
+			{0, "/outbox/page1", "HTTP/1.1 200 OK\r\n" + ct + "\r\n" + page1},
+			{0, "/outbox/page2", "HTTP/1.1 200 OK\r\n" + ct + "\r\n" + page2}}
 	case "redirect1":
 		return "https://%H1%%P%/old", []exchange{
 			{1, "/old", "HTTP/1.1 302 Found\r\nServer: x\r\nLocation: https://%H0%%P%/actor\r\nContent-Length: 0\r\n\r\n"},
@@ -105,7 +114,7 @@ func corpus(name string) (input string, chain []exchange) {
 	panic("harness: unknown corpus " + name)
 }
 
-var corpora = []string{"actor", "actor-length-3MiB", "actor-length-absurd", "actor-trailing-newline", "collection", "redirect1", "redirect2", "webfinger", "note-with-author"}
+var corpora = []string{"actor", "actor-length-3MiB", "actor-length-absurd", "actor-trailing-newline", "collection", "redirect1", "redirect2", "webfinger", "note-with-author", "paged-collection"}
 
 // fixP inserts the case's path prefix; %PNUM% (its number) makes the webfinger query unique per case,
 // so the process-wide response cache cannot answer for an earlier case.
@@ -230,7 +239,17 @@ func check(c Case) vrep.Result {
 	}
 	done := make(chan any, 1)
 	start := time.Now()
-	go func() { done <- pub.FetchUserInput(in) }()
+	go func() {
+		result := pub.FetchUserInput(in)
+		if c.Corpus == "paged-collection" {
+			// read it to the end: the outcome is the list of items
+			if coll, ok := result.(pub.Container); ok && coll != nil {
+				items, _, _ := coll.Harvest(50, 0)
+				result = items
+			}
+		}
+		done <- result
+	}()
 	var result any
 	limit := time.Duration(len(chain)+1)*3*T + time.Second
 	select {
@@ -243,6 +262,17 @@ func check(c Case) vrep.Result {
 		return vrep.Result{Classes: classes, Err: fmt.Errorf("%s: fetch took %v, more than %v = (hops+1) x 3 x timeout + 1 s", describe(c), elapsed.Round(time.Millisecond), limit)}
 	}
 	_, failed := result.(*pub.Failure)
+	if items, isList := result.([]pub.Tangible); isList {
+		// a page that could not be read shows as an error item at the end of what was read
+		for _, it := range items {
+			if _, f := it.(*pub.Failure); f {
+				failed = true
+			}
+		}
+		if c.Kind == "none" && (failed || len(items) != 6) {
+			return vrep.Result{Classes: classes, Err: fmt.Errorf("harness: fault-free read of the paged collection yields %d items (failure: %v)", len(items), failed)}
+		}
+	}
 	if nf := nestedFrom(c.Corpus); nf >= 0 && c.Hop >= nf {
 		// the faulted fetch is an author inside a post that loads fine: the post is built, the author is an error item
 		post, isPost := result.(*pub.Post)
